@@ -316,6 +316,61 @@ def inplace_histories() -> Tuple[int, List[Violation]]:
     return n, viols
 
 
+NO_PAYLOAD_PROGS = [("src", "probe_r"), ("srcdef", "ctxw", "probe_r"), ("paysrc", "tmpl_a"), ("sweep_src", "sum", "probe_r"), ("src", "mul3", "ren_r_factor")]
+
+
+def no_payload_histories() -> Tuple[int, List[Violation]]:
+    """One Pipeline object run three times WITHOUT a payload (process(), process(None), process() - what a caller does whose pipeline starts
+    with a source): every run starts from nothing, so all three leave the same normalised trace and return equal results, and a result
+    handed back earlier is not changed by a later run."""
+    import copy as _copy
+    import os
+
+    from semantiva.pipeline import Pipeline
+    from semantiva.trace.drivers.jsonl import JsonlTraceDriver
+
+    harness.quiet()
+    scratch = harness.enter_scratch()
+    viols: List[Violation] = []
+    n = 0
+    for prog in NO_PAYLOAD_PROGS:
+        for detail in ("hash", "all"):
+            cfg = harness.load_config(gen.yaml_config(prog))
+            harness.clear_dir(scratch)
+            tdir = os.path.join(scratch, "tdir")
+            pipe = Pipeline(cfg.nodes, trace=JsonlTraceDriver(tdir, detail=detail))
+            outs, kept = [], []
+            for call in ("()", "(None)", "()"):
+                harness.reset_log()
+                try:
+                    res = pipe.process() if call == "()" else pipe.process(None)
+                    outs.append(("ok", harness.canon_data(res.data), harness.canon_ctx(res.context.to_dict())))
+                    kept.append((res, _copy.deepcopy(outs[-1])))
+                except Exception as exc:  # noqa: BLE001
+                    outs.append(("raised", type(exc).__name__, str(exc)[:120]))
+                n += 1
+            from mc import cli as _cli
+
+            recs, files = _cli.collect_trace(tdir)
+            runs: Dict[str, List[dict]] = {}
+            for r in recs:
+                rid = r.get("run_id") or (r.get("identity") or {}).get("run_id")
+                runs.setdefault(rid, []).append(r)
+            traces_ = [normalise(v) for v in runs.values()]
+            case = {"kind": "no-payload", "prog": list(prog), "detail": detail}
+            if any(not core.same(o, outs[0]) for o in outs[1:]):
+                viols.append(Violation("result-depends-on-earlier-run|no-payload", f"{list(prog)}: process() / process(None) / process() on one Pipeline returned {outs}", case))
+            elif len(traces_) != 3 or any(t != traces_[0] for t in traces_[1:]):
+                d = first_diff(traces_[0], traces_[1]) if len(traces_) > 1 else f"{len(traces_)} runs in the trace"
+                viols.append(Violation("trace-depends-on-earlier-run|no-payload", f"{list(prog)} detail={detail}: three payload-less runs of one Pipeline leave different traces: {str(d)[:300]}", case))
+            for res, snap in kept:
+                now = ("ok", harness.canon_data(res.data), harness.canon_ctx(res.context.to_dict()))
+                if not core.same(now, snap):
+                    viols.append(Violation("earlier-result-changed-by-later-run|no-payload", f"{list(prog)}: a payload returned by an earlier run reads {now} after later runs; it was {snap}", case))
+                    break
+    return n, viols
+
+
 def launch_histories(tier: str) -> Tuple[int, List[Violation]]:
     """A run-space launch under an explicit launch id (or an idempotency key), performed, then another launch, then the first
     again — all in this process: the traces of the repeated launch are identical modulo the documented volatile fields."""
@@ -383,6 +438,9 @@ def check(tier: str, seed: int) -> Result:
     ni, vi = inplace_histories()
     viols.extend(vi)
     nh += ni
+    nn, vn = no_payload_histories()
+    viols.extend(vn)
+    nh += nn
     cov = {
         "evaluations": n + nh + nf, "distinct_nontrivial": len(nontrivial) + nh + len(fjobs), "fresh_process_runs": nf,
         "rule": "observation: all programs of length 1-2 over a 20-symbol alphabet (+ length 3: reduced; thorough: full) x {empty, full} "
@@ -398,6 +456,8 @@ def check(tier: str, seed: int) -> Result:
 
 
 def replay(case) -> List[Violation]:
+    if case["kind"] == "no-payload":
+        return [v for v in no_payload_histories()[1] if v.case["prog"] == case["prog"] and v.case["detail"] == case["detail"]]
     if case["kind"] == "inplace":
         return inplace_histories()[1][:1]
     if case["kind"] == "launch":
